@@ -105,13 +105,18 @@ func switchToParentThread(L *LState, nargs int, haserror bool, kill bool) {
 func callGFunction(L *LState, tailcall bool) bool {
 	frame := L.currentFrame
 	gfnret := frame.Fn.GFunction(L)
-	if tailcall {
-		L.currentFrame = L.RemoveCallerFrame()
-	}
-
 	if gfnret < 0 {
+		if tailcall {
+			// a yield in tail position keeps the calling frame: when resumed, the values are found at R(A)
+			// and the OP_RETURN that follows every OP_TAILCALL hands all of them on
+			frame.ReturnBase = frame.Base
+			frame.NRet = MultRet
+		}
 		switchToParentThread(L, L.GetTop(), false, false)
 		return true
+	}
+	if tailcall {
+		L.currentFrame = L.RemoveCallerFrame()
 	}
 
 	wantret := frame.NRet
